@@ -52,7 +52,10 @@ class Scripted(object):
         if len(seq) == 0:
             raise DeadEnd("Cannot choose from an empty sequence")
         self.nchoices += 1
-        if self.tp is None or self.nchoices > self.max_choices:
+        if self.tp is None:
+            self.t += 1
+            return seq[self.t % len(seq)]  # deterministic sweep (used by C19, never by C18's own exploration)
+        if self.nchoices > self.max_choices:
             raise Abort()
         return seq[self.tp.choose(len(seq))]
 
@@ -61,6 +64,28 @@ class Scripted(object):
 
     def shuffle(self, seq):
         pass
+
+
+SOURCE_NAMES = ("random", "srandom")  # whichever module-level random source segmentation.py uses
+
+
+def set_source(seg, obj):
+    hit = False
+    for name in SOURCE_NAMES:
+        if hasattr(seg, name):
+            setattr(seg, name, obj)
+            hit = True
+    if not hit:
+        raise RuntimeError("cspuz.generator.segmentation has no module-level random source to script")
+
+
+def save_source(seg):
+    return {name: getattr(seg, name) for name in SOURCE_NAMES if hasattr(seg, name)}
+
+
+def restore_source(seg, saved):
+    for name, v in saved.items():
+        setattr(seg, name, v)
 
 
 def canon(blocks):
@@ -107,7 +132,7 @@ def successors(part, b, blocks, h, w, cfg, case):
     snapshot = copy.deepcopy(blocks)
     history = []
     for offset in range(maxn * maxn):
-        seg.random = Scripted(offset)
+        set_source(seg, Scripted(offset))
         try:
             cands = b.candidates(blocks)
         except Exception as e:
@@ -143,7 +168,7 @@ def successors(part, b, blocks, h, w, cfg, case):
 def explore_config(part, h, w, cfg, seeds_from_all_valid, state_cap):
     from cspuz.generator import segmentation as seg
 
-    saved = seg.random
+    saved = save_source(seg)
     case = {"board": [h, w], "config": list(cfg)}
     try:
         # which partitions are valid at all?
@@ -159,7 +184,7 @@ def explore_config(part, h, w, cfg, seeds_from_all_valid, state_cap):
         seeds = {}
 
         def one(tp):
-            seg.random = Scripted(0, tp)
+            set_source(seg, Scripted(0, tp))
             try:
                 return ("ok", b.initial())
             except Abort:
@@ -186,7 +211,7 @@ def explore_config(part, h, w, cfg, seeds_from_all_valid, state_cap):
         if seeds_from_all_valid:
             for blocks in valid:
                 bb = make_builder(h, w, cfg, initial_blocks=blocks)
-                seg.random = Scripted(0)
+                set_source(seg, Scripted(0))
                 try:
                     v = bb.initial()
                     if invariant(v, h, w, cfg) is None:
@@ -221,7 +246,7 @@ def explore_config(part, h, w, cfg, seeds_from_all_valid, state_cap):
         part.count("configs_explored")
         part.outcome("reachable=%s" % ("all-valid" if len(seen) == len(valid) else "subset"))
     finally:
-        seg.random = saved
+        restore_source(seg, saved)
 
 
 def configs(h, w, tier):
